@@ -991,8 +991,9 @@ func (x *Exec) specCall(env *SpecEnv, c ECall) SpecVal {
 			return SpecVal{T: mk(SBV(w), fmt.Sprintf("(_ sign_extend %d)", w-fw), v.T)}
 		}
 	case "calls":
-		f := x.specTerm(env, c.Args[0])
-		return SpecVal{T: Select(x.heapGet(env.st, "$calls", SArr(SInt, x.idxSort())), f)}
+		fv := x.spec(env, c.Args[0])
+		f := fv.T
+		return SpecVal{T: Select(x.heapGet(env.st, callsArrName(sigOfType(fv.Ty)), SArr(SInt, x.idxSort())), f)}
 	case "done":
 		c := x.specTerm(env, c.Args[0])
 		return SpecVal{T: x.doneNow(env.st, c)}
@@ -1074,7 +1075,7 @@ func (x *Exec) specCall(env *SpecEnv, c ECall) SpecVal {
 		}
 		rt := sig.Results().At(pos).Type()
 		srt := x.sortOf(rt)
-		name := fmt.Sprintf("$callret!%d!%s", pos, srt)
+		name := fmt.Sprintf("$callret!%d!%s!%s", pos, srt, sigKey(sig))
 		arr := x.heapGet(env.st, name, SArr(SInt, SArr(x.idxSort(), srt)))
 		return SpecVal{T: Select(Select(arr, f.T), k), Ty: rt}
 	case "haskey":
